@@ -1863,6 +1863,9 @@ def c20(rec):
         run("logaddexp_self", lambda: fo.logaddexp(x, x))
         run("sub_number", lambda: x - 1.0)
         run("abs_exp", lambda: fo.abs(x).exp())
+        run("clamp_finite", lambda: x.clamp_finite())
+        run("clamp_number", lambda: fo.clamp(x, -1.0, 1.0))
+        run("nan_to_num_like", lambda: x.exp().log())
         if x.inputs:
             first = next(iter(x.inputs))
             run("reduce_max", lambda: x.reduce(fo.max, first))
